@@ -109,8 +109,9 @@ def handle (args : List String) : String :=
     match BBoxProto.parsePyr cov, parseCoords tiles with
     | some cov, some cs =>
       match kind with
-      | "tar" | "dir" | "pmtiles" => showO Pyramid.render (coverOfCoords cs)
-      | "mbtiles" => showO Pyramid.render (mbtilesCover cs)
+      -- suffix `0`: some tiles are stored with a zero-length payload – they are tiles like any other
+      | "tar" | "dir" | "pmtiles" | "tar0" | "dir0" => showO Pyramid.render (coverOfCoords cs)
+      | "mbtiles" | "mbtiles0" => showO Pyramid.render (mbtilesCover cs)
       | "versatiles" => showO Pyramid.render (versatilesCover cov)
       | _ => "bad-op"
     | _, _ => "bad-op"
